@@ -270,3 +270,12 @@ def run(ctx: Ctx, rep: Report, tier: str):
     from rules.common import walk_propagates_faults
     rep.rule("C10.T12", "a transient fault during a walk is not swallowed: Provider._walk / walk / walk_oid catch nothing but CloudFileNotFoundError without re-raising", 1)
     section(rep, lambda: walk_propagates_faults(ctx, rep, "C10.T12"))
+    from rules.common import no_new_swallowing_handlers
+    rep.rule("C10.T13", "a provider fault is never silently swallowed inside the sync step: the only handler of SyncManager that catches a fault family without re-raising or "
+             "reporting is the resolver fallback", 1)
+    section(rep, lambda: no_new_swallowing_handlers(ctx, rep, "C10.T13"))
+    from rules.C05 import C05 as _C05
+    from rules.common import alias as _alias10
+    _alias10(rep, ["C05.V2", "C05.V1", "C05.V3", "C05.V4", "C05.V5", "C05.V6", "C05.V7", "C05.V8", "C05.V9"], "C10.T14", "a transient fault while the application's resolver reads a handle aborts the step "
+             "(CloudTemporaryError is re-raised before the catch-all of __safe_call_resolver, C05.V2): it is reported and retried, not taken for a broken resolver", 1,
+             lambda: _C05(ctx, rep).run(), keep=lambda i: i.rule == "C05.V2" and i.key == "resolver|temporary-propagates")
